@@ -328,7 +328,7 @@ class Unit:
         novac = False
         for d in blk.dirs:
             if d.kind == 'cfg':
-                a, v = d.arg.split('=')
+                a, v = d.arg.rsplit('=', 1)
                 cfg_env[a.strip()] = v.strip() == 'true'
             elif d.kind == 'strip':
                 strip += d.arg.split()
